@@ -92,6 +92,8 @@ def _one_cut(rng, c, pad=5, pre=0):
                 world.fs.clock[2] = world.fs.clock.get(2, 1000.0) + surv.grace + 1
                 world.events.append({"e": "tick", "w": 2})
             world.grant(surv)
+        if not surv.finished and not surv.dead:
+            world.events.append({"e": "never_finished", "w": surv.wid})     # 3000 steps, the clock past the grace period at each sleep
         while late.pending is not None and not late.finished:
             world.grant(late)
         world.shutdown()
